@@ -148,6 +148,44 @@ def parallel_scenarios(rnd, count):
     return out
 
 
+def long_scenarios(rnd, count):
+    """Hand-built scenarios beyond the model's four heights (judged by the C04 / restart clauses of StoreTrace.tla only):
+    a long island above a gap that is flushed before the gap is filled (head must walk to its end, for any cache size),
+    the same below the tail, a batch that starts at Head+1 and has a hole inside, gap fills in several steps."""
+    def op(**kw):
+        d = {"op": "none", "b": [], "from": 0, "to": 0, "failAt": 0, "res": "ok", "calls": [], "gone": [], "kind": "", "ws": []}
+        d.update(kw)
+        return {"op": d, "proj": {}, "live": [], "deleted": []}
+    out = []
+    for i in range(count):
+        kind = i % 4
+        hist = []
+        if kind == 0:      # island above
+            g = rnd.randint(2, 3)
+            top = g + rnd.randint(4, 9)
+            hist = [op(op="append", b=list(range(1, g))), op(op="append", b=list(range(g + 1, top + 1))), op(op="sync"),
+                    op(op="append", b=[g]), op(op="sync")]
+            n = top
+        elif kind == 1:    # island below the tail
+            lo = rnd.randint(4, 8)
+            hist = [op(op="append", b=[lo + 2, lo + 3]), op(op="sync"), op(op="append", b=list(range(1, lo + 1))), op(op="sync"),
+                    op(op="append", b=[lo + 1]), op(op="sync")]
+            n = lo + 3
+        elif kind == 2:    # a batch with a hole that starts right above the head
+            k = rnd.randint(2, 5)
+            hist = [op(op="append", b=list(range(1, k + 1))), op(op="append", b=[k + 1, k + 2, k + 4, k + 5]), op(op="sync"),
+                    op(op="append", b=[k + 3]), op(op="sync")]
+            n = k + 5
+        else:              # two gaps filled in the "wrong" order
+            hist = [op(op="append", b=[1]), op(op="append", b=[3, 4]), op(op="append", b=[6, 7, 8]), op(op="sync"),
+                    op(op="append", b=[5]), op(op="sync"), op(op="append", b=[2]), op(op="sync")]
+            n = 8
+        if rnd.random() < 0.5:
+            hist += [op(op="stop"), op(op="start")]
+        out.append({"k": "STORE", "n": n, "bsz": rnd.choice((1, 2, 3, 64)), "ctx": rnd.random() < 0.5, "hist": hist, "variant": "free"})
+    return out
+
+
 def family(run, prefixes, faults, crash, variants=None):
     variants = variants or {}
     quick = run.tier == "quick"
@@ -223,6 +261,8 @@ def family(run, prefixes, faults, crash, variants=None):
                     extra.append(dict(c, variant="dfail:%d" % k))
     if variants.get("parscen"):
         extra.extend(parallel_scenarios(rnd, variants["parscen"]))
+    if variants.get("longscen"):
+        extra.extend(long_scenarios(rnd, variants["longscen"]))
     run.cov["variant_runs"] = dict(collections.Counter(e["variant"].split(":")[0] for e in extra))
     keep = keep + extra
     run.cov["edges_exported"] = total_edges
@@ -249,7 +289,8 @@ def family(run, prefixes, faults, crash, variants=None):
 @register("C04")
 def c04(run):
     family(run, ["C04_", "C06_clean_restart"], faults=False, crash=False,
-           variants={"nowait": 0.3, "wfail": 0.08 if run.tier == "quick" else 0.5, "sameobj": 0.1 if run.tier == "quick" else 0.5})
+           variants={"nowait": 0.3, "wfail": 0.08 if run.tier == "quick" else 0.5, "sameobj": 0.1 if run.tier == "quick" else 0.5,
+                     "longscen": 80 if run.tier == "quick" else 800})
 
 
 @register("C08")
@@ -267,8 +308,9 @@ def c14(run):
 
 @register("C06")
 def c06(run):
-    family(run, ["C06_", "C04_operation_failed", "C04_every_appended", "C04_head_is_top"], faults=False, crash=True,
-           variants={"wfail": 0.5 if run.tier == "quick" else 1.0, "nowait": 0.5 if run.tier == "quick" else 1.0})
+    family(run, ["C06_", "C04_operation_failed", "C04_every_appended", "C04_head_is_top", "C04_tail_le_head_and_range_readable"], faults=False, crash=True,
+           variants={"wfail": 0.5 if run.tier == "quick" else 1.0, "nowait": 0.5 if run.tier == "quick" else 1.0,
+                     "longscen": 40 if run.tier == "quick" else 400, "dfail": 0.3 if run.tier == "quick" else 1.0})
     # free schedules with a Stop somewhere in the middle of appends and Syncs, then a fresh Store on the same datastore
     from .conc import explore
     explore(run, "c06", 6000 if run.tier == "quick" else 100000, ["C06_", "C04_head_is_top"])
